@@ -28,6 +28,9 @@ type Kind[K any] struct {
 	// Fan returns up to 256 keys that differ in exactly one byte position of
 	// their transformed form (they all hang under one inner node).
 	Fan func(r *rng.R) []K
+	// Staircase returns a chain of keys each extending the previous one (a path through
+	// dozens of nested inner nodes), with sibling leaves at many levels; nil if not applicable.
+	Staircase func(r *rng.R) []K
 	// Fan2 returns a two-level fan-out: upper is a family under one node; lower is a second
 	// family hanging under the branch of upper[anchor] (so that two wide nodes are stacked).
 	Fan2 func(r *rng.R) (upper []K, anchor int, lower []K)
